@@ -6,6 +6,8 @@ import panic as PN
 import facts as FX
 import enc as ENC
 import absint as AI
+import interval as IV
+import acc as ACC
 from facts import tokens, fmt, short, walk, strip_sites, op_place, const_int
 
 # thorough tier: release configuration only — the dev-configuration pass reports the debug_assert! contract checks of the
@@ -75,6 +77,9 @@ _mv_memo = {}
 VTS = {}
 
 
+_probe_other_side = IV.probe_operand_lb
+
+
 def min_valid_len(F, fn, param=1, depth=12):
     """a lower bound on len(buf) on every path on which `fn` (has_required_size / try_from / try_from_slice …) returns
     Ok: from `len(buf) < C -> Err` guards that every Ok exit passes, and from callees receiving the same buffer whose
@@ -105,6 +110,12 @@ def min_valid_len(F, fn, param=1, depth=12):
                     lb = max(lb, {"Ge": vc, "Gt": vc + 1, "Eq": vc}.get(op, 0))
                 elif cc == ln and va is not None:
                     lb = max(lb, {"Le": va, "Lt": va + 1, "Eq": va}.get(op, 0))
+                elif (ca == ln and op in ("Ge", "Gt", "Eq")) or (cc == ln and op in ("Le", "Lt", "Eq")):
+                    # len(buf) >= T with a computed T: lower bound of T over all paths reaching the comparison,
+                    # by interval interpretation of this function (IV probes)
+                    v = _probe_other_side(F, fn, b, g, 1 if ca == ln else 0)
+                    if v:
+                        lb = max(lb, v + (1 if op in ("Gt", "Lt") else 0))
             lbs.append(lb)
         best = min(lbs)
     # delegation
@@ -555,6 +566,7 @@ def run(F, R, tier, cfg):
     R.extra["view_fns"] = len(fns)
     ENC.install()
     M = accessor_rule(F, R, vts, fns)
+    ACC.run(F, R, M, "view", 160)       # 172 sites counted on 8f07ce4 (156 slice-backed view, 14 array-backed, 1 guarded, 1 debug renderer)
     dispatch_rule(F, R, vts, M)
     payload_rules(F, R, vts)
     sz_rule(F, R, vts)
